@@ -111,6 +111,13 @@ CHECKS = {
                      "statistics as the independent ElementTree reader. The numeric tokens of the text output must be equal for all 11 languages; "
                      "compare-xyz of a result with itself must succeed.",
                 note="Octave output, SVG, SQL export and gama-local-deformation are not yet covered; HTML is compared on ids, coordinates and counts only", ref="8/C12"),
+    "C17": dict(cat="other", technique="trace validation: table of evaluations of the real functions accepted by Quantiles.tla (TLC)",
+                text="harness/drv_statan evaluates gama's Normal, Student, Chi_square and NormalDistribution on a reference grid (39 tail probabilities "
+                     "0.0005..0.9995 x degrees of freedom 1..1000), a dense grid of probabilities down to 1e-12 and up to 1-1e-12, and x in [-40, 40]; TLC "
+                     "accepts the logged table only if it satisfies the laws of Quantiles.tla in exact integer (FixNum) arithmetic: finite, monotone, "
+                     "symmetric, 1 - Phi(Normal(a)) = a, and within 1e-6 / 5e-4 / 5e-3 of the committed reference table.",
+                note="the accuracy clause trusts the scipy-generated table spec/data/quantiles_ref.json (TLA+ cannot define transcendental quantiles); "
+                     "'every alpha / every dof' is a grid, not a proof", ref="8/C17"),
 }
 
 NOT_APPLICABLE = []
